@@ -171,6 +171,13 @@ def impl_eval(case):
         exp = refdes.tdes_ecb(b'\x00' * 16, binascii.unhexlify(key)).hex()[:n]
         if st != 'ok' or out != exp:
             why = f'KCV {out!r} ({st}) is not the leading {n} hex digits of 3DES(0) = {exp!r}'
+        else:
+            # the key handed over as a MUTABLE buffer, asked twice: the caller's key is the caller's (the second answer is
+            # the first, the buffer still holds the key)
+            kb = bytearray(binascii.unhexlify(key))
+            st2, two = guarded(lambda: (keymod.calculate_kcv(kb, n), keymod.calculate_kcv(kb, n)))
+            if st2 != 'ok' or two != (exp, exp) or bytes(kb) != binascii.unhexlify(key):
+                why = f'a key given as a bytearray and used twice gave {two!r} ({st2}); the key check value is {exp!r}'
         return {'obs': f'{st} {common.dotted(out or "")}', 'violation': why, 'tags': ['kcv']}
     raise ValueError(k)
 
